@@ -227,6 +227,17 @@ func (o *OLVM) Plan(c *Ctx) []hist.TxSpec {
 		out = append(out, o.sandwich(c, es[0], es[1])...)
 	case 27, 33:
 		out = append(out, o.readSandwich(c, es[0])...)
+	case 32:
+		// a value sent into an execution that fails having used all its gas: a precompile with no gas left
+		// beyond the intrinsic cost
+		{
+			pre := ethcmn.BytesToAddress([]byte{2})
+			out = append(out, o.tx(c, es[1], &pre, big.NewInt(1000000), nil, 21000, "value sent to the sha256 precompile with no gas beyond the intrinsic cost (fails, all gas used)"))
+		}
+	case 34:
+		if a, ok := o.contracts["loop"]; ok {
+			out = append(out, o.tx(c, es[1], &a, big.NewInt(4242), nil, 40000, "value sent into an infinite loop (out of gas)"))
+		}
 	case 8, 16:
 		out = append(out, o.accessListFailure(c, es[0], es[1])...)
 	case 11, 19:
